@@ -9,6 +9,7 @@ Every operator impl `impl Op<B> for A { type Output = C }` gets the same contrac
 uninterpreted function of the operands for the BTreeMap-merge leaves that stay assumed, and a DEFINED combination of callee
 remainders for dispatch / macro-generated impls, which are verified.
 """
+import re
 from vx import core
 from vx.core import Unit
 
@@ -68,6 +69,13 @@ def contract(op, a, b, c, rem=None, lhs='self', rhs='rhs'):
     return ('''%s && %s ==> %s && forall|m: Map<u64, F64>| #![trigger %s] %s == %s %s %s - %s%s,
             %s.subset_of(%s.union(%s)),''' % (f(a, lhs), f(b, rhs), f(c, 'r'), v(c, 'r'), v(c, 'r'), v(a, lhs), OPSYM[op], v(b, rhs), rem, comm,
                                              i(c, 'r'), i(a, lhs), i(b, rhs))) + coo
+
+
+def contract_conj(op, a, b, c, lhs='self', rhs='rhs'):
+    """the same contract as one conjunction (for use under a quantifier)"""
+    t = contract(op, a, b, c, lhs=lhs, rhs=rhs)
+    clauses = [x.strip().rstrip(',') for x in t.split(',\n') if x.strip().rstrip(',')]
+    return ' && '.join('(%s)' % x for x in clauses)
 
 
 def spec_impl(op, a, b, c, req='true'):
@@ -135,7 +143,9 @@ def leaf_stubs():
         if kind != 'map':
             continue
         tr = TRAIT[op]
-        out.append(spec_impl(op, a, b, c))
+        # the term iterator of a Quadratic operand asserts equal COO lengths
+        req = ' && '.join(['qcoo(%s)' % x for t, x in ((a, 'self'), (b, 'rhs')) if t == 'Quadratic']) or 'true'
+        out.append(spec_impl(op, a, b, c, req=req))
         out.append('impl core::ops::%s<%s> for %s { type Output = %s;\n    #[verifier::external_body] fn %s(self, rhs: %s) -> (r: %s)\n        ensures %s\n    { unimplemented!() } }\n'
                    % (tr, T[b]['rust'], T[a]['rust'], T[c]['rust'], op, T[b]['rust'], T[c]['rust'], contract(op, a, b, c)))
         names.append('%s %s %s' % (a, OPSYM[op], b))
@@ -553,16 +563,33 @@ def typed_macro_units():
         return Unit('%s!(%s)' % (macro, ', '.join(args)), file, fname, text=(t, ln), anyhow=False, pre=pre, wrap=(wrap_head, '}'), header=header, proofs=list(proofs),
                     rsubs=[(r'<(\w+)>::from\(', r'\1::from(', None)])
     # the instances we can decide: (file, macro, (lhs, rhs)) -> contract of the callee with swapped operands / exact negation
-    for file, ty in (('linear.rs', 'Linear'), ('quadratic.rs', 'Quadratic')):
+    def si_req(tr, op, a, b, c, req):
+        return si(tr, op, a, b, c).replace('_req(self, rhs: %s) -> bool { true }' % T[b]['rust'], '_req(self, rhs: %s) -> bool { %s }' % (T[b]['rust'], req))
+
+    def qreq(a, b):
+        return ' && '.join(['qcoo(%s)' % x for t, x in ((a, 'self'), (b, 'rhs')) if t == 'Quadratic']) or 'true'
+    OUT = {(op, x, y): c for op, x, y, c, _ in LEAVES}
+    for file, ty in (('linear.rs', 'Linear'), ('quadratic.rs', 'Quadratic'), ('polynomial.rs', 'Polynomial')):
         for args, ln in core.macro_invocations(file, 'impl_add_inverse'):
             a, b = args
-            if b != ty or a not in ('f64', 'Linear'):
+            if b != ty or a not in ('f64', 'Linear', 'Quadratic'):
+                continue
+            if ty == 'Polynomial':
+                c = OUT[('add', b, a)]
+                U.append(unit(file, 'impl_add_inverse', args, ln, 'add', 'impl core::ops::Add<%s> for %s { type Output = %s;' % (T[b]['rust'], T[a]['rust'], T[c]['rust']), si_req('Add', 'add', a, b, c, qreq(a, b)),
+                              'fn add(self, rhs: %s) -> (r: %s)\n        ensures %s' % (T[b]['rust'], T[c]['rust'], contract('add', b, a, c, lhs='rhs', rhs='self'))))
                 continue
             # a + b is computed as b + a: the contract of (b + a) with the operands swapped
             U.append(unit(file, 'impl_add_inverse', args, ln, 'add', 'impl core::ops::Add<%s> for %s { type Output = %s;' % (T[b]['rust'], T[a]['rust'], T[b]['rust']), si('Add', 'add', a, b, b),
                           'fn add(self, rhs: %s) -> (r: %s)\n        ensures %s' % (T[b]['rust'], T[b]['rust'], contract('add', b, a, b, lhs='rhs', rhs='self'))))
         for args, ln in core.macro_invocations(file, 'impl_mul_inverse'):
             a, b = args
+            if b == ty and (ty == 'Polynomial' or a == 'Linear') and a in ('f64', 'Linear', 'Quadratic'):
+                # a * b is computed as b * a: the contract of the (assumed or verified) leaf b * a with the operands swapped
+                c = OUT[('mul', b, a)]
+                U.append(unit(file, 'impl_mul_inverse', args, ln, 'mul', 'impl core::ops::Mul<%s> for %s { type Output = %s;' % (T[b]['rust'], T[a]['rust'], T[c]['rust']), si_req('Mul', 'mul', a, b, c, qreq(a, b)),
+                              'fn mul(self, rhs: %s) -> (r: %s)\n        ensures %s' % (T[b]['rust'], T[c]['rust'], contract('mul', b, a, c, lhs='rhs', rhs='self'))))
+                continue
             if b != ty or a != 'f64':
                 continue
             U.append(unit(file, 'impl_mul_inverse', args, ln, 'mul', 'impl core::ops::Mul<%s> for %s { type Output = %s;' % (T[b]['rust'], T[a]['rust'], T[b]['rust']), si('Mul', 'mul', a, b, b),
@@ -783,3 +810,95 @@ fn add(self, rhs: Self) -> (r: Quadratic)
                 lemma_kins_last(xs, n, i); } } } }'''),
                         (('before', r'let __l = btree_into_vec2\(map\);'), 'let ghost mapv = map@; let ghost m1 = kacc(ys, ys.len() as int, true, kins(xs, xs.len() as int));\n        '),
                         (('before', r'out\s*\}\s*$'), final_proof)])
+
+
+# ---------------------------------------------------------------- decision variables and parameters as operands (parameter.rs, v1_ext/decision_variable.rs)
+VAR_SPEC = '''// ---- a decision variable / parameter as an operand is the linear function 1.0 * x_id ----
+pub open spec fn var_lin(l: v1::Linear, id: u64) -> bool { l.terms@.len() == 1 && l.terms@[0].id == id && l.terms@[0].coefficient@ == XR::Fin(1real) && l.constant@ == XR::Fin(0real) }
+pub proof fn lemma_var_lin(l: v1::Linear, id: u64)
+    requires var_lin(l, id)
+    ensures linear_fin(l), linear_ids(l) =~= Set::<u64>::empty().insert(id), forall|m: Map<u64, F64>| #![trigger linear_val(l, m)] linear_val(l, m) == sval(m, id)
+{
+    assert(lin_ids(l.terms@, 1) =~= lin_ids(l.terms@, 0).insert(id));
+    assert forall|m: Map<u64, F64>| #![trigger linear_val(l, m)] linear_val(l, m) == sval(m, id) by {
+        assert(lin_sum(l.terms@, 1, m) == lin_sum(l.terms@, 0, m) + rv(l.terms@[0].coefficient) * sval(m, l.terms@[0].id));
+        assert(1real * sval(m, id) == sval(m, id)) by(nonlinear_arith); }
+}
+'''
+
+
+def var_units():
+    """operator impls with a `&DecisionVariable` / `&Parameter` operand: each converts the operand with `Linear::from` and applies the typed operator - proved
+    against the contract of that operator (verified or assumed leaf) with the converted operand existentially named (`var_lin`)"""
+    U = []
+    OUT = {(op, x, y): c for op, x, y, c, _ in LEAVES}
+    ORDER = ['f64', 'Linear', 'Quadratic', 'Polynomial']
+
+    def fsi(src, dst):
+        return ("impl<'a> vstd::std_specs::convert::FromSpecImpl<&'a %s> for %s { open spec fn obeys_from_spec() -> bool { false } open spec fn from_spec(v: &'a %s) -> Self { arbitrary() } }\n" % (src, dst, src))
+    U.append(Unit('From<u64> for Linear', 'linear.rs', 'from', impl=r'impl From<u64> for Linear \{', sig='fn from(id: u64) -> Self', anyhow=False,
+                  pre='impl vstd::std_specs::convert::FromSpecImpl<u64> for Linear { open spec fn obeys_from_spec() -> bool { false } open spec fn from_spec(v: u64) -> Self { arbitrary() } }\n',
+                  wrap=('impl From<u64> for Linear {', '}'), header='fn from(id: u64) -> (r: Self)\n        ensures var_lin(r, id),'))
+    for file, P in (('parameter.rs', 'Parameter'), ('v1_ext/decision_variable.rs', 'DecisionVariable')):
+        U.append(Unit('From<&%s> for Linear' % P, file, 'from', impl=r'impl From<&%s> for Linear \{' % P, sig='fn from(dv: &%s) -> Self' % P, anyhow=False, pre=fsi(P, 'Linear'),
+                      wrap=("impl<'a> From<&'a %s> for Linear {" % P, '}'), header="fn from(dv: &'a %s) -> (r: Self)\n        ensures var_lin(r, dv.id)," % P))
+
+    def lin_op(op, t, other, lin, lin_first=True):
+        """contract (one conjunction) and output type of  Linear OP t  /  t OP Linear  with the Linear operand named `lin` and the other operand named `other`"""
+        if t == 'Linear' and not lin_first:
+            c = OUT[(op, 'Linear', 'Linear')]
+            return contract_conj(op, 'Linear', 'Linear', c, lhs=other, rhs=lin), c
+        if t == 'Function':
+            pred = {'add': 'is_sum', 'mul': 'is_prod'}[op]
+            return '%s(r, %s, fn_of_linear(%s)) && fn_coo_ok(r)' % (pred, other, lin), 'Function'
+        if ORDER.index(t) <= ORDER.index('Linear'):
+            c = OUT[(op, 'Linear', t)]
+            return contract_conj(op, 'Linear', t, c, lhs=lin, rhs=other), c
+        c = OUT[(op, t, 'Linear')]
+        return contract_conj(op, t, 'Linear', c, lhs=other, rhs=lin), c
+
+    def req_of(t, x):
+        return {'Function': '%s.function is Some && fn_coo_ok(%s)' % (x, x), 'Quadratic': 'qcoo(%s)' % x}.get(t, 'true')
+
+    def si(tr, op, lhs_ty, rhs_ty, out, req, lt=''):
+        return ('impl%s %sSpecImpl<%s> for %s { open spec fn obeys_%s_spec() -> bool { false } open spec fn %s_req(self, rhs: %s) -> bool { %s } '
+                'open spec fn %s_spec(self, rhs: %s) -> %s { arbitrary() } }\n' % (lt, tr, rhs_ty, lhs_ty, op, op, rhs_ty, req, op, rhs_ty, out))
+
+    for file, P, suffix in (('parameter.rs', 'Parameter', 'parameter'), ('v1_ext/decision_variable.rs', 'DecisionVariable', 'decision_variable')):
+        RP = "&'a %s" % P
+        for op, tr in (('add', 'Add'), ('mul', 'Mul')):
+            macro = 'impl_%s_%s' % (op, suffix)
+            for args, ln in core.macro_invocations(file, macro):
+                (t,) = args
+                if t not in T:
+                    raise core.LostAnchor('unexpected %s! instance %s' % (macro, args))
+                text = core.expand_macro(file, macro, args)
+                parts = re.split(r'(?=impl %s<&%s> for )' % (tr, P), text)
+                if len(parts) != 2:
+                    raise core.LostAnchor('%s! no longer defines exactly the two impls (&%s OP T, T OP &%s)' % (macro, P, P))
+                body1, out = lin_op(op, t, 'rhs', 'a')
+                # &P OP T  =  Linear::from(self) OP rhs
+                U.append(Unit('%s!(%s) [&%s %s T]' % (macro, t, P, OPSYM[op]), file, op, text=(parts[0], ln), anyhow=False,
+                              pre=si(tr, op, RP, T[t]['rust'], T[out]['rust'], req_of(t, 'rhs'), lt="<'a>"),
+                              wrap=("impl<'a> core::ops::%s<%s> for %s { type Output = %s;" % (tr, T[t]['rust'], RP, T[out]['rust']), '}'),
+                              header='fn %s(self, rhs: %s) -> (r: %s)\n        ensures exists|a: Linear| #![trigger var_lin(a, self.id)] var_lin(a, self.id) && %s,' % (op, T[t]['rust'], T[out]['rust'], body1)))
+                body2, out2 = lin_op(op, t, 'self', 'a', lin_first=False)
+                # T OP &P  =  self OP Linear::from(rhs)
+                U.append(Unit('%s!(%s) [T %s &%s]' % (macro, t, OPSYM[op], P), file, op, text=(parts[1], ln), anyhow=False,
+                              pre=si(tr, op, T[t]['rust'], RP, T[out2]['rust'], req_of(t, 'self'), lt="<'a>"),
+                              wrap=("impl<'a> core::ops::%s<%s> for %s { type Output = %s;" % (tr, RP, T[t]['rust'], T[out2]['rust']), '}'),
+                              header='fn %s(self, rhs: %s) -> (r: %s)\n        ensures exists|a: Linear| #![trigger var_lin(a, rhs.id)] var_lin(a, rhs.id) && %s,' % (op, RP, T[out2]['rust'], body2)))
+    # the hand-written impls between two variables / parameters
+    for file, lhs, rhs in (('parameter.rs', 'Parameter', 'Parameter'), ('parameter.rs', 'Parameter', 'DecisionVariable'), ('parameter.rs', 'DecisionVariable', 'Parameter'),
+                           ('v1_ext/decision_variable.rs', 'DecisionVariable', 'DecisionVariable')):
+        for op, tr in (('add', 'Add'), ('mul', 'Mul')):
+            out = OUT[(op, 'Linear', 'Linear')]
+            same = lhs == rhs
+            impl_rx = (r'impl %s for &%s \{' % (tr, lhs)) if same else (r'impl %s<&%s> for &%s \{' % (tr, rhs, lhs))
+            RL, RR = "&'a %s" % lhs, "&'b %s" % rhs
+            U.append(Unit('%s<&%s> for &%s' % (tr, rhs, lhs), file, op, impl=impl_rx, sig='fn %s(self, rhs: %s) -> Self::Output' % (op, 'Self' if same else '&' + rhs), anyhow=False,
+                          pre=si(tr, op, RL, RR, T[out]['rust'], 'true', lt="<'a, 'b>"),
+                          wrap=("impl<'a, 'b> core::ops::%s<%s> for %s { type Output = %s;" % (tr, RR, RL, T[out]['rust']), '}'),
+                          header='fn %s(self, rhs: %s) -> (r: %s)\n        ensures exists|a: Linear, b: Linear| #![trigger var_lin(a, self.id), var_lin(b, rhs.id)] var_lin(a, self.id) && var_lin(b, rhs.id) && %s,'
+                                 % (op, RR, T[out]['rust'], contract_conj(op, 'Linear', 'Linear', out, lhs='a', rhs='b'))))
+    return U
